@@ -151,6 +151,13 @@ pub fn v_u16_from_le_bytes_slice(s: &[u8]) -> (r: u16)
     ensures r as nat == le_val2(s@),
 { u16::from_le_bytes(s.try_into().unwrap()) }
 
+/// `u16::from_be_bytes(S.try_into().unwrap())`
+#[verifier::external_body]
+pub fn v_u16_from_be_bytes_slice(s: &[u8]) -> (r: u16)
+    requires s@.len() == 2,
+    ensures r as nat == be_val2(s@),
+{ u16::from_be_bytes(s.try_into().unwrap()) }
+
 /// `<&[u8] as TryInto<[u8; N]>>::try_into`: Ok iff the slice has exactly N elements.
 #[verifier::external_body]
 pub fn v_try_into<const N: usize>(s: &[u8]) -> (r: Result<[u8; N], ()>)
